@@ -12,6 +12,11 @@ pub(crate) mod verif_probe {
     }
     fn hex(b: &[u8]) -> String { b.iter().map(|x| format!("{:02x}", x)).collect() }
 
+    /// (cleanup switch, statement cache capacity) of a connection -- for the probes of other modules
+    pub(crate) fn conn_settings(s: &Server) -> (bool, usize) {
+        (s.cleanup_connections, s.prepared_statement_cache.as_ref().map(|c| c.cap().get()).unwrap_or(0))
+    }
+
     fn params_from(v: &Value) -> ServerParameters {
         let mut sp = ServerParameters::new();
         if let Some(o) = v.as_object() {
